@@ -126,6 +126,23 @@ def render_hours(tbl, ind, ranges=False):
     return out
 
 
+def fmt_limit(minutes, key):
+    """a limit value in one of the units the grammar accepts - hours, minutes, working days (8 h) and working weeks
+    (40 h) - chosen by the node and the value (the same text on every run); days and weeks only where the decimal
+    number is exact"""
+    import random
+    unit = random.Random(key).choice(["h", "h", "min", "d", "w"])
+    if unit == "min":
+        return f"{minutes}min"
+    if unit in ("d", "w"):
+        per = 480 if unit == "d" else 2400
+        txt = f"{minutes / per:.3f}".rstrip("0").rstrip(".")
+        if "." not in txt or len(txt.split(".")[1]) <= 3:
+            if abs(float(txt) * per - minutes) < 1e-9 and float(txt) > 0:
+                return txt + unit
+    return fmt_dur(minutes)
+
+
 def render_limits(n, ind):
     parts = []
     for k in ("dailymax", "weeklymax"):
@@ -133,7 +150,7 @@ def render_limits(n, ind):
             flt = ""
             if n.get("limit_res"):
                 flt = " { resources " + ", ".join(n["limit_res"]) + " }"
-            parts.append(f"{k} {fmt_dur(n[k])}{flt}")
+            parts.append(f"{k} {fmt_limit(n[k], str(n.get('id')) + k + str(n[k]))}{flt}")
     return [f"{ind}limits {{ " + " ".join(parts) + " }"] if parts else []
 
 
@@ -418,7 +435,7 @@ def schedule_all(ctx, aps, texts=None, **kw):
 
 def compare_cython_blocked(ctx):
     import gens
-    aps = gens.family(ctx, "hours", ctx.n(40, 250)) + gens.family(ctx, "core", ctx.n(40, 250))
+    aps = gens.family(ctx, "hours", ctx.n(40, 250)) + gens.family(ctx, "core", ctx.n(40, 250)) + gens.family(ctx, "hoursmid", ctx.n(40, 250))
     a = schedule_all(ctx, aps, ledger=False)
     b = schedule_all(ctx, aps, ledger=False, env={"VERIF_BLOCK_CYTHON": "1"})
     bad = []
